@@ -24,10 +24,14 @@ pub fn plan05(tier: Tier) -> Plan {
             }
         }
     }
+    let (mw, n) = if tier == Tier::Quick { (3, 300) } else { (4, 10_000) };
+    for p in pgrid() {
+        checks.push(Box::new(QLasso { mode: Mode::C05, p, max_word: mw, n }));
+    }
     let mut a = common_assumptions();
     a.push("the reference is the P² algorithm as printed in Jain & Chlamtac 1985 (refmodels/p2.rs), in the paper's expression order".into());
     Plan {
-        rule: "for every p of the grid, every stream over the tie-heavy alphabet {0,1,2,3} and the distinct alphabet {-4,0,1,2.5,3,7} up to the depth bound; after each observation from the fifth the real quantile() and the serde-visible marker heights/positions are compared with the from-the-paper reference run on the same stream; states are (real marker state, reference state, ghost min/max) and non-trivial from the fifth observation on".into(),
+        rule: "long streams as a finite family: every word of length <= 3 (4) over {0,1,2,3} repeated to n = 300 (10^4) with linear trend c·t, c in {0, +0.5, -0.5} (sorted, reverse-sorted, zig-zag, saw-tooth, heavy-duplicate and trending streams), every step compared with the reference; AND for every p of the grid, every stream over the tie-heavy alphabet {0,1,2,3} and the distinct alphabet {-4,0,1,2.5,3,7} up to the depth bound; after each observation from the fifth the real quantile() and the serde-visible marker heights/positions are compared with the from-the-paper reference run on the same stream; states are (real marker state, reference state, ghost min/max) and non-trivial from the fifth observation on".into(),
         assumptions: a,
         checks,
     }
@@ -84,8 +88,12 @@ pub fn plan15(tier: Tier) -> Plan {
             }
         }
     }
+    let (mw, n) = if tier == Tier::Quick { (3, 300) } else { (4, 10_000) };
+    for p in pgrid() {
+        checks.push(Box::new(QLasso { mode: Mode::C15, p, max_word: mw, n }));
+    }
     Plan {
-        rule: "the C05 stream families from the first observation on; invariants on every state: len/is_empty/p() read-back, quantile() NaN iff empty and otherwise within the ghost [min,max], from five observations on serialised heights non-decreasing with first = min and last = max; plus the constructor grid (panic iff p outside [0,1] or NaN)".into(),
+        rule: "the C05 stream families (bounded exhaustive and long lasso/trend streams) from the first observation on; invariants on every state: len/is_empty/p() read-back, quantile() NaN iff empty and otherwise within the ghost [min,max], from five observations on serialised heights non-decreasing with first = min and last = max; plus the constructor grid (panic iff p outside [0,1] or NaN)".into(),
         assumptions: common_assumptions(),
         checks,
     }
@@ -138,5 +146,104 @@ impl Check for CtorCheck {
     fn replay(&self, path: &[Value]) -> Result<Vec<Violation>, String> {
         let p = path.first().and_then(|v| v.get("new")).and_then(fparse).ok_or("bad path")?;
         Ok(ctor_judge(p).into_iter().collect())
+    }
+}
+
+// ---------------------------------------------------------------------------------------
+// long streams: every word of length <= max_word over the tie-heavy alphabet, repeated to n,
+// with a linear trend c·t (c in {0, +0.5, -0.5}): sorted, reverse-sorted, zig-zag, saw-tooth,
+// heavy-duplicate and trending streams are all members of this finite family.
+
+pub struct QLasso {
+    pub mode: Mode,
+    pub p: f64,
+    pub max_word: usize,
+    pub n: usize,
+}
+impl QLasso {
+    fn run_word(&self, w: &[f64], trend: f64) -> (u64, Vec<(Violation, usize)>) {
+        use super::quantile::QSpec;
+        use crate::explore::Spec;
+        let spec = QSpec::new(self.mode, self.p, "qties");
+        let mut s = spec.init().pop().unwrap();
+        let mut steps = 0u64;
+        for k in 1..=self.n {
+            let x = w[(k - 1) % w.len()] + trend * (k as f64);
+            let t = spec.step(&s, &x);
+            steps += 1;
+            // the marker state is read through serde on the first 64 steps and every 16th after
+            let vs = if k <= 64 || k % 16 == 0 || self.mode == Mode::C15 && k % 4 == 0 { spec.check(&s, &x, &t) } else { spec_quick(&spec, &t) };
+            if !vs.is_empty() {
+                return (steps, vs.into_iter().map(|v| (v, k)).collect());
+            }
+            s = t;
+        }
+        (steps, vec![])
+    }
+}
+/// the cheap part of the oracle (no serde): estimate vs reference / range
+fn spec_quick(spec: &super::quantile::QSpec, t: &super::quantile::QState) -> Vec<Violation> {
+    let q = match &t.q {
+        Ok(q) => q,
+        Err(m) => return vec![Violation { sig: "Quantile.add:panic".into(), detail: m.clone() }],
+    };
+    let est = match guarded(|| q.quantile()) {
+        Ok(e) => e,
+        Err(m) => return vec![Violation { sig: "Quantile.quantile:panic".into(), detail: m }],
+    };
+    let mut out = Vec::new();
+    if spec.mode == Mode::C05 {
+        if let Some(r) = &t.reference {
+            let tol = (t.gmax - t.gmin) * (2.0f64).powi(-40);
+            if !((est - r.estimate()).abs() <= tol) {
+                out.push(Violation { sig: "Quantile.quantile:differs-from-P2".into(), detail: format!("p = {:?}, after {} observations quantile() = {:?} but the P² middle marker is {:?}", spec.p, t.count, est, r.estimate()) });
+            }
+        }
+    } else if !(t.gmin <= est && est <= t.gmax) {
+        out.push(Violation { sig: "Quantile.quantile:out-of-range:p2".into(), detail: format!("p = {:?}: after {} observations quantile() = {:?} outside [{:?}, {:?}]", spec.p, t.count, est, t.gmin, t.gmax) });
+    }
+    out
+}
+impl Check for QLasso {
+    fn name(&self) -> String {
+        format!("{:?}/quantile-long/p={:016x}/w{}/n{}", self.mode, self.p.to_bits(), self.max_word, self.n)
+    }
+    fn run(&self) -> Stats {
+        use rayon::prelude::*;
+        let t0 = std::time::Instant::now();
+        let alpha = alphabet("qties");
+        let mut jobs: Vec<(Vec<f64>, f64)> = Vec::new();
+        for l in 1..=self.max_word {
+            for w in super::hist06::all_lists(&alpha, l) {
+                for tr in [0.0, 0.5, -0.5] {
+                    jobs.push((w.clone(), tr));
+                }
+            }
+        }
+        let mut st = Stats { spec: self.name(), depth_requested: self.n, depth_completed: self.n, ..Default::default() };
+        let res: Vec<(u64, Vec<(Violation, usize)>)> = jobs.par_iter().map(|(w, tr)| self.run_word(w, *tr)).collect();
+        let mut found: std::collections::BTreeMap<String, Found> = Default::default();
+        for ((w, tr), (steps, vs)) in jobs.iter().zip(res) {
+            st.states += steps;
+            st.transitions += steps;
+            st.maximal += 1;
+            for (v, k) in vs {
+                let sig = format!("{}:long-stream", v.sig);
+                let e = found.entry(sig.clone()).or_insert(Found { sig, detail: format!("{} [word {:?} repeated with trend {} to {} observations]", v.detail, w, tr, k), path: vec![json!({"word": w.iter().map(|x| fshow(*x)).collect::<Vec<_>>()}), json!({"trend": tr}), json!({"upto": k})], count: 0 });
+                e.count += 1;
+            }
+        }
+        st.nontrivial_states = st.states;
+        st.outcomes = st.maximal;
+        let (w, tr) = &jobs[jobs.len() / 2];
+        st.samples.push(json!({"spec": self.name(), "history": [{"word": format!("{w:?}")}, {"trend_per_step": tr}, {"repeated_to": self.n}]}));
+        st.found = found.into_values().collect();
+        st.wall_s = t0.elapsed().as_secs_f64();
+        st
+    }
+    fn replay(&self, path: &[Value]) -> Result<Vec<Violation>, String> {
+        let w: Vec<f64> = path.first().and_then(|v| v.get("word")).and_then(|w| w.as_array()).ok_or("no word")?.iter().map(fparse).collect::<Option<Vec<_>>>().ok_or("bad word")?;
+        let tr = path.get(1).and_then(|v| v.get("trend")).and_then(|t| t.as_f64()).ok_or("no trend")?;
+        Ok(self.run_word(&w, tr).1.into_iter().map(|(v, _)| v).collect())
     }
 }
